@@ -468,7 +468,13 @@ def render_extra(e, rng):
         L += ["  type :: %s_holder" % n]
         for i in range(e["n"]):
             L.append("    type(%s_c%d) :: h%d" % (n, i, i))
-        L += ["    type(%s_base) :: hb" % n, "  end type %s_holder" % n, "end module %s" % n]
+        L += ["    type(%s_base) :: hb" % n, "  contains", "    procedure :: describe => %s_describe" % n,
+              "    procedure :: %s_scale" % n, "    generic :: op => describe, %s_scale" % n, "    final :: %s_cleanup" % n,
+              "  end type %s_holder" % n, "contains",
+              "  subroutine %s_describe(self)" % n, "    !! bound procedure", "    class(%s_holder), intent(in) :: self" % n, "  end subroutine %s_describe" % n,
+              "  subroutine %s_scale(self, f)" % n, "    class(%s_holder), intent(inout) :: self" % n, "    real, intent(in) :: f", "  end subroutine %s_scale" % n,
+              "  subroutine %s_cleanup(self)" % n, "    type(%s_holder), intent(inout) :: self" % n, "  end subroutine %s_cleanup" % n,
+              "end module %s" % n]
         return L
     if k == "callfam_h":
         return ["module %s" % e["name"], "  !! %s" % e["tr"], "  implicit none", "contains", "  subroutine %shelper()" % e["name"],
